@@ -1,5 +1,5 @@
 # replay of a bounded stand-in violation (C09/C10): re-run native/c09_engine.py
 import sys
-print('C10: sqrt(q*q) of a measured parameter with outcome (0.3+0.4j) evaluates to (0.5+0j), the function of the outcome is (0.3+0.4j)')
+print('gaussian [Del q1, measure q2, feed q0]: raised ParameterError: q2: trying to use a nonexistent measurement result (e.g., before it has been measured). (after [])')
 print('REPLAY-VIOLATION')
 sys.exit(1)
